@@ -9,7 +9,12 @@ package main
 // parse shows.
 
 import (
+	"encoding/json"
 	"fmt"
+	"os"
+	"os/exec"
+	"path/filepath"
+	"sort"
 	"strings"
 	"sync"
 	"sync/atomic"
@@ -199,4 +204,137 @@ func (d *drv) failSafe(mu *sync.Mutex, key, what, c string) {
 	mu.Lock()
 	defer mu.Unlock()
 	d.fail(key, what, c)
+}
+
+// Templated files loaded concurrently through the real file entry points: every load must see its OWN
+// rendered document (the result equals the sequential result for that file), whatever else is being
+// rendered at the same time.  A parser fed with bytes that change under it may crash the process, so the
+// scenario runs in a child (driver "renderchild") and the parent reports what the child saw, or its crash.
+type renderEntry struct{ Doc, Got int }
+type renderReport struct {
+	Entries []renderEntry
+	Fails   []string
+}
+
+func init() { drivers["renderchild"] = runRenderChild }
+
+func runRenderChild(cfg *runCfg) error {
+	rounds := 30
+	if cfg.Tier == "thorough" {
+		rounds = 300
+	}
+	rep := renderScenario(cfg.Extra, rounds)
+	b, _ := json.Marshal(rep)
+	return os.WriteFile(cfg.Out, b, 0o644)
+}
+
+func renderScenario(dir string, rounds int) renderReport {
+	mk := func(name, typ, first, second string, extra string) string {
+		text := "serverAddr = \"127.0.0.1\"\nuser = \"" + name + "\"\n" +
+			"{{ range $i, $v := parseNumberRangePair \"" + first + "\" \"" + second + "\" }}\n[[proxies]]\nname = \"" + name + "-{{ $v.First }}\"\ntype = \"" + typ +
+			"\"\nlocalPort = {{ $v.First }}\nremotePort = {{ $v.Second }}\n" + extra + "{{ end }}\n"
+		p := filepath.Join(dir, name+".toml")
+		_ = os.WriteFile(p, []byte(text), 0o644)
+		return p
+	}
+	files := []string{
+		mk("alpha", "tcp", "10000-10119", "20000-20119", "transport.useEncryption = true\n"),
+		mk("beta", "udp", "30000-30039", "40000-40039", ""),
+		mk("gamma", "tcp", "5000-5009", "6000-6009", "metadatas.k = \"v\"\n"),
+	}
+	loadDump := func(p string) (string, string) {
+		raw, err := config.LoadFileContentWithTemplate(p, config.GetValues())
+		if err != nil {
+			return "render error: " + err.Error(), ""
+		}
+		rendered := string(raw) // copied at once: this is what the call returned
+		cc, pcs, _, _, err := config.LoadClientConfig(p, true)
+		if err != nil {
+			return rendered, "load error: " + err.Error()
+		}
+		items := []string{coqOfAny(cc)}
+		for _, pc := range pcs {
+			items = append(items, coqCfg(pc))
+		}
+		return rendered, strings.Join(items, "\n")
+	}
+	var seqR, seqL []string
+	for _, p := range files {
+		r, l := loadDump(p)
+		seqR, seqL = append(seqR, r), append(seqL, l)
+	}
+	var mu sync.Mutex
+	var rep renderReport
+	var wg sync.WaitGroup
+	for w := 0; w < 4; w++ {
+		wg.Add(1)
+		go func(w int) {
+			defer wg.Done()
+			for r := 0; r < rounds; r++ {
+				k := (w + r) % len(files)
+				rendered, loaded := loadDump(files[k])
+				got := 0
+				for j := range files {
+					if loaded == seqL[j] && rendered == seqR[j] {
+						got = j + 1
+					}
+				}
+				mu.Lock()
+				rep.Entries = append(rep.Entries, renderEntry{k + 1, got})
+				if got != k+1 && len(rep.Fails) < 3 {
+					detail := fmt.Sprintf("file %s (worker %d, round %d): ", filepath.Base(files[k]), w, r)
+					switch {
+					case rendered != seqR[k]:
+						detail += "the rendered document differs from the file's own rendering: " + firstLineDiff(seqR[k], rendered)
+					case strings.HasPrefix(loaded, "load error"):
+						detail += loaded
+					default:
+						detail += "the loaded structure differs: " + firstLineDiff(seqL[k], loaded)
+					}
+					rep.Fails = append(rep.Fails, detail)
+				}
+				mu.Unlock()
+			}
+		}(w)
+	}
+	wg.Wait()
+	return rep
+}
+
+func (d *drv) concurrentRenders(g *gen) []caseOut {
+	dir := filepath.Join(filepath.Dir(d.cfg.Out), "render")
+	if d.cfg.Out == "" {
+		dir = filepath.Join(os.TempDir(), "c18render")
+	}
+	_ = os.MkdirAll(dir, 0o755)
+	out := filepath.Join(dir, "report.json")
+	_ = os.Remove(out)
+	cmd := exec.Command(os.Args[0], "renderchild", "-extra", dir, "-out", out, "-tier", d.cfg.Tier)
+	outb, err := cmd.CombinedOutput()
+	var rep renderReport
+	what := "a templated file loaded while other files were being rendered in the same process does not give its sequential result"
+	if err != nil {
+		tail := string(outb)
+		if i := strings.Index(tail, "goroutine "); i > 0 && i < len(tail) {
+			tail = tail[:i]
+		}
+		if len(tail) > 600 {
+			tail = tail[:600]
+		}
+		d.fail("concurrent-render-crash", "the process CRASHED while templated files alpha.toml / beta.toml / gamma.toml were loaded concurrently (4 goroutines, LoadFileContentWithTemplate + LoadClientConfig): the parser was fed bytes that changed under it",
+			err.Error()+"\n"+tail)
+		rep.Entries = []renderEntry{{1, 0}}
+	} else if b, e := os.ReadFile(out); e != nil || json.Unmarshal(b, &rep) != nil {
+		d.fail("concurrent-render-child", "the render child left no report", string(outb))
+	}
+	for _, f := range rep.Fails {
+		d.fail("concurrent-render-not-own-document", what, f)
+	}
+	items := []string{}
+	for _, e := range rep.Entries {
+		items = append(items, fmt.Sprintf("(%d, %d)%%nat", e.Doc, e.Got))
+	}
+	// order of completion depends on timing: sorted, so that the case text replays exactly on an unchanged tree
+	sort.Strings(items)
+	return []caseOut{{"CRenderTrace " + hx.List(items), "concurrent-renders"}}
 }
